@@ -74,6 +74,24 @@ CHECKS["C02"] = {
     "technique": TECH + "effect typing proof, counter/exchange pairing, guard-dominated divisor discipline, substitution-shape patterns",
 }
 
+CHECKS["C04"] = {
+    "text": "For every n, m1, m2: Index/IndexMut share the in-band guard and the compact index (i, m1+j-i), proved in range from the negated guard; new/resize establish "
+            "compact: n x (m1+m2+1) and the operators preserve it with the trait's operator; fill_band's guard entails its column; the matvec window provably never reads "
+            "padding and indexes x by the true column; the pivot search compares magnitudes and is an arg-max; the row exchange, the sign flip and the recorded index are "
+            "paired; det multiplies the sign by the full pivot column; solve replays the recorded exchanges and multipliers with the same offsets.",
+    "design_ref": "DESIGN.md §3 C04",
+    "note": "The left-shift/zero-fill and the elimination window (mutated loop-carried bound l) are outside the linear prover; agreement with the dense result and backward error are numerical.",
+    "technique": TECH + "single-fact linear entailment on index windows, magnitude/arg-max analysis, exchange/sign/index pairing, store/replay offset agreement",
+}
+CHECKS["C05"] = {
+    "text": "For every n >= 1: Index/IndexMut implement one storage map; every assignment of convert and every product of the matrix-vector stencil agrees with that map; "
+            "with the struct invariant (checked on the constructors) every index in det, convert and the product is proved in range — this is what exposes the n = 1 case; "
+            "in solve every definition of the pivot is followed by a zero test that panics before any division by it; transpose swaps sub/sup; the determinant is the three-term recurrence; operators pair like diagonals.",
+    "design_ref": "DESIGN.md §3 C05",
+    "note": "Domain n >= 1 as the property states. Exactness of solve and backward stability are numerical and not decided statically.",
+    "technique": TECH + "storage-map agreement, armed single-fact bounds proofs under a struct invariant, def-guard-use divisor discipline, symbolic transpose/recurrence identities",
+}
+
 NOT_APPLICABLE = {
 }
 for _i in range(1, 21):
